@@ -369,6 +369,10 @@ fn walks_with_vanishing_dirs(
                         summary: format!("walk_dir on {} over tree {:?}, remove_dir_all({:?}) after {} items, Pending at {:?}: {}", cfg.label(), tree.iter().map(|(p, n)| format!("{}{}", p, if *n == Node::Dir { "/" } else { "" })).collect::<Vec<_>>(), q, i, plan, what),
                         replay: json!({"engine": "walk-vanishing", "configuration": cfg.label(), "tree": tree.iter().map(|(p, n)| json!({"path": p, "dir": *n == Node::Dir})).collect::<Vec<_>>(), "removed": q, "after_items": i, "plan": plan}),
                     };
+                    if let Err(m) = &a0 {
+                        local.push(mk("panic", format!("the async walk panicked: {}", m), &[]));
+                        continue;
+                    }
                     if a0 != sync_items {
                         local.push(mk("differs-from-sync", format!("async yields {:?}, sync yields {:?}", a0, sync_items), &[]));
                         continue;
@@ -377,6 +381,10 @@ fn walks_with_vanishing_dirs(
                         for k in 0..n {
                             let (a, _) = run_async(&[k]);
                             runs += 1;
+                            if let Err(m) = &a {
+                                local.push(mk("panic", format!("the async walk panicked: {}", m), &[k]));
+                                break;
+                            }
                             if a != a0 {
                                 local.push(mk("depends-on-polling", format!("yields {:?}, without Pending {:?}", a, a0), &[k]));
                                 break;
@@ -865,6 +873,9 @@ pub fn panic_sweep(ctx: &Ctx) -> (u64, Vec<Violation>) {
             n += async_reader_scripts(&cfg, base, c, 3, &mut vio);
         }
     }
+    // walks in which a listed directory vanishes at every walker position (one Pending everywhere)
+    let trees: Vec<Vec<(String, Node)>> = trees_over(&u22().paths, b"x");
+    n += walks_with_vanishing_dirs(&Cfg::Mem, &trees, 0, true, &mut vio);
     drop(quiet);
     let v = vio
         .into_iter()
